@@ -103,6 +103,8 @@ def run(res, replay=None):
             if len(faces) != len(used):
                 res.violation("C15:face-count", f"cell {gi}: {len(faces)} faces but {len(used)} planes carry vertices", cctx)
                 continue
+            if not cell.get("clone", True):
+                res.violation("C15:clone-loses-faces", f"cell {gi}: a clone of the cell with faces reports different face data", cctx)
             if not cell["roundtrip"]:
                 res.violation("C15:discard-rederive", f"cell {gi}: with_faces(discard_faces(.)) changes the face vertex lists", cctx)
             # accessors vs face integrals
